@@ -444,7 +444,7 @@ func init() {
 	vfXModels["call-fault"] = &vfXModel{Name: "call-fault", NumOps: len(ops), OpName: func(i int) string { return ops[i].Name },
 		Exec: vfCallExec(true), MaxDepth: func(th bool) int {
 			if th {
-				return 4
+				return 8
 			}
 			return 4
 		}, FaultDepth: func(th bool) int { return 4 }}
